@@ -292,6 +292,7 @@ def nm_to_ansi_j(n, m):
 
 def ansi_j_to_nm(idx):
     """Convert ANSI single term to (n,m) two-term index."""
+    idx = int(idx)  # fixed-width numpy integers wrap in 8*idx and in 2*idx - n(n+2)
     n = int(np.ceil((-3 + np.sqrt(9 + 8*idx))/2))
     m = 2 * idx - n * (n + 2)
     return n, m
@@ -301,6 +302,7 @@ def noll_to_nm(idx):
     """Convert Noll Z to (n, m) two-term index."""
     # I don't really understand this code, the math is inspired by POPPY
     # azimuthal order
+    idx = int(idx)  # fixed-width numpy integers wrap in 8*idx and in idx - nseries - 1
     n = int(np.ceil((-1 + np.sqrt(1 + 8 * idx)) / 2) - 1)
     if n == 0:
         m = 0
